@@ -38,7 +38,9 @@ PORT_MAPS = [
 BAD_REQUEST, BAD_TYPE = 1, 1
 
 # Divergence guard: one step is a few hundred microseconds of POX code; a step
-# still running after STEP_LIMIT_S seconds of wall time is an endless loop in
+# that has burnt STEP_LIMIT_S seconds of this process's own CPU time (virtual
+# timer: independent of machine load, so the verdict stays deterministic; the
+# scripted sockets never block) is an endless loop in
 # the code under test and becomes the observation DIVERGED (which no spec
 # action produces).  The timer keeps firing so the exception also gets past
 # POX's bare `except:` clauses.  (A step normally needs < 1 ms of CPU, so the
@@ -180,22 +182,22 @@ class Adapter(object):
   # -- the actions
   def step(self, a, args):
     try:
-      old = signal.signal(signal.SIGALRM, _on_alarm)
+      old = signal.signal(signal.SIGVTALRM, _on_alarm)
     except ValueError:              # not in the main thread: no guard
       return self._step(a, args)
     _fired[0] = False
     try:
-      signal.setitimer(signal.ITIMER_REAL,
+      signal.setitimer(signal.ITIMER_VIRTUAL,
                        STEP_LIMIT_AFTER_DIVERGENCE_S if _ever[0] else STEP_LIMIT_S, 0.02)
       try:
         obs = self._step(a, args)
       finally:
-        signal.setitimer(signal.ITIMER_REAL, 0)
+        signal.setitimer(signal.ITIMER_VIRTUAL, 0)
     except Diverged:
-      signal.setitimer(signal.ITIMER_REAL, 0)
+      signal.setitimer(signal.ITIMER_VIRTUAL, 0)
       return {"DIVERGED": a}
     finally:
-      signal.signal(signal.SIGALRM, old)
+      signal.signal(signal.SIGVTALRM, old)
     if _fired[0]:                   # swallowed by a bare `except:` in POX
       return {"DIVERGED": a}
     return obs
